@@ -153,13 +153,15 @@ def fast_prints(text, tag):
     import json
     global _jdec
     _jdec = _jdec or json.JSONDecoder()
-    key = '<<"%s"' % tag
-    if key not in text:
+    if not re.search(r'<<\s*"%s"' % re.escape(tag), text):
         return []
-    # keep only the regions that can hold values (cheap guard against huge logs): convert whole text
-    t = text.replace('[', '{').replace(']', '}').replace('<<', '[').replace('>>', ']')
-    t = re.sub(r'([A-Za-z_][A-Za-z_0-9]*) \|->', r'"\1":', t)
-    t = t.replace('TRUE', 'true').replace('FALSE', 'false')
+    def conv(m):
+        if m.group(1) is not None:
+            return m.group(1)          # string literal: untouched
+        u = m.group(2).replace('[', '{').replace(']', '}').replace('<<', '[').replace('>>', ']')
+        u = re.sub(r'([A-Za-z_][A-Za-z_0-9]*) \|->', r'"\1":', u)
+        return u.replace('TRUE', 'true').replace('FALSE', 'false')
+    t = re.sub(r'("(?:[^"\\\n]|\\.)*")|([^"]+)', conv, text)
     out = []
     end = 0
     for m in re.finditer(r'(?m)^\[\s*"%s"' % re.escape(tag), t):
